@@ -48,16 +48,36 @@ def _matrix():
                                              "key": f"{pos}/{kind}{'?' if nul else ''}"}}
 
 
+USAGES = {"none": None, "multipart": "multipart/form-data", "form": "application/x-www-form-urlencoded", "json+multipart": "both"}
+
+
 def _pairs():
-    pool = K.ATOMS + [["array", "model_ref"], ["array", "date"], ["union", "model_ref", "date"]]
+    """Two properties in one model x requiredness patterns x how the model is USED (only a component; the multipart / form body of an
+    operation; JSON body of one operation and multipart body of another)."""
+    pool = K.ATOMS + [["array", "model_ref"], ["array", "date"], ["union", "model_ref", "date"], ["nullable", "int", "t31"], ["union", "int", "str"]]
     for a, b in itertools.product(pool, pool):
         for reqs in ([], ["a"], ["b"], ["a", "b"]):
-            comps = {}
-            comps["M"] = {"type": "object", "properties": {"a": K.schema(a, comps), "b": K.schema(b, comps)}}
-            if reqs:
-                comps["M"]["required"] = reqs
-            yield {"labels": [f"a={K.kstr(a)}", f"b={K.kstr(b)}", "req=" + "".join(reqs)],
-                   "payload": {"doc": gen.base_doc(comps), "options": {}, "meta": "none", "key": f"pair/{K.kstr(a)}+{K.kstr(b)}"}}
+            for usage, media in USAGES.items():
+                if usage != "none" and not (_is_unionish(a) or _is_unionish(b) or "file" in (a, b)) and reqs not in ([], ["a", "b"]):
+                    continue      # body usages: all requiredness patterns for union-like / nullable pairs, the two extreme patterns otherwise
+                comps = {}
+                comps["M"] = {"type": "object", "properties": {"a": K.schema(a, comps), "b": K.schema(b, comps)}}
+                if reqs:
+                    comps["M"]["required"] = reqs
+                paths = {}
+                mref = {"$ref": "#/components/schemas/M"}
+                ok = {"204": {"description": "n"}}
+                if media == "both":
+                    paths = {"/j": {"post": {"operationId": "sendJson", "requestBody": {"required": True, "content": {"application/json": {"schema": mref}}}, "responses": ok}},
+                             "/m": {"post": {"operationId": "sendMultipart", "requestBody": {"required": True, "content": {"multipart/form-data": {"schema": mref}}}, "responses": ok}}}
+                elif media:
+                    paths = {"/b": {"post": {"operationId": "sendBody", "requestBody": {"required": True, "content": {media: {"schema": mref}}}, "responses": ok}}}
+                yield {"labels": [f"a={K.kstr(a)}", f"b={K.kstr(b)}", "req=" + "".join(reqs)] + ([f"used-as={usage}"] if usage != "none" else []),
+                       "payload": {"doc": gen.base_doc(comps, paths=paths), "options": {}, "meta": "none", "key": f"pair/{K.kstr(a)}+{K.kstr(b)}"}}
+
+
+def _is_unionish(k):
+    return isinstance(k, list) and k[0] in ("union", "nullable") or k in ("null", "any")
 
 
 DEFAULTS = {"str": "dflt", "int": 3, "num": 2.5, "bool": True, "date": "2001-02-03", "datetime": "2001-02-03T04:05:06+00:00",
